@@ -12,7 +12,8 @@ use super::util::*;
 
 pub const SRC_RAW: usize = 0; // AnyValueRaw: statically unknown type, caller buffer
 pub const SRC_WRAPPER: usize = 1; // AnyValueWrapper<T> through the erased API (type statically known)
-pub const SRC_TYPED: usize = 2; // AnyVecTyped::insert / push
+pub const SRC_TYPED: usize = 2;
+pub const OP_DRAINED: usize = 3; // value source: element yielded by drain of another vector // AnyVecTyped::insert / push
 
 /// post-condition shared by every insert/push harness on vector 0
 fn post_insert(len: usize, index: usize, w: usize, esz: usize, len2: usize, cap2: usize) {
@@ -102,6 +103,12 @@ fn insert_from_other<T: 'static>(push: bool, op: usize) {
     } else if op == super::k2_remove::OP_SWAP_REMOVE {
         let h = other.swap_remove(j);
         if push { v.push(h) } else { v.insert(index, h) }
+    } else if op == OP_DRAINED {
+        // a drained element of another vector (owning element handle) moved in
+        let mut d = other.drain(j..j + 1);
+        let e = d.next().unwrap();
+        if push { v.push(e) } else { v.insert(index, e) }
+        core::mem::drop(d);
     } else {
         let h = other.pop().unwrap();
         if push { v.push(h) } else { v.insert(index, h) }
@@ -127,7 +134,7 @@ fn insert_from_other<T: 'static>(push: bool, op: usize) {
             kani::assert(post::fate_ok(0, index, n, p, a, d, o) && tok_visible_in(TC, 1, lenb2).0 == 0,
                 "move between vectors: the moved value is visible exactly once, in the target at index");
         } else {
-            let pos = if op == super::k2_remove::OP_REMOVE { post::remove_old_pos(len_b, j, wb) }
+            let pos = if op == super::k2_remove::OP_REMOVE || op == OP_DRAINED { post::remove_old_pos(len_b, j, wb) }
                       else if op == super::k2_remove::OP_SWAP_REMOVE { post::swap_remove_old_pos(len_b, j, wb) }
                       else { post::pop_old_pos(len_b, wb) };
             let (n, p, a, d, o) = obs(TC, 1, lenb2, pos);
